@@ -70,9 +70,10 @@ pub mod sync {
     use std::ops::{Deref, DerefMut};
     use std::sync::{LockResult, PoisonError, TryLockError};
 
-    /// See the module documentation.
+    /// See the module documentation. The second field counts the hooked tasks that wait
+    /// for exclusive access.
     #[derive(Debug, Default)]
-    pub struct RwLock<T>(std::sync::RwLock<T>);
+    pub struct RwLock<T>(std::sync::RwLock<T>, std::sync::atomic::AtomicUsize);
 
     /// Shared guard of [`RwLock`].
     #[derive(Debug)]
@@ -85,7 +86,7 @@ pub mod sync {
     impl<T> RwLock<T> {
         /// New unlocked lock.
         pub fn new(value: T) -> Self {
-            Self(std::sync::RwLock::new(value))
+            Self(std::sync::RwLock::new(value), std::sync::atomic::AtomicUsize::new(0))
         }
 
         /// Shared access; see the module documentation.
@@ -98,6 +99,13 @@ pub mod sync {
             }
             sched_point("rwlock.read");
             loop {
+                // the futex-based std lock prefers writers: `read()` waits behind a writer
+                // that is already waiting, even if the lock is only held shared (a second
+                // `read()` of a task that still holds a read guard can therefore wait for ever)
+                if self.1.load(Ordering::SeqCst) > 0 {
+                    sched_point("rwlock.blocked");
+                    continue;
+                }
                 match self.0.try_read() {
                     Ok(g) => return Ok(RwLockReadGuard(Some(g))),
                     Err(TryLockError::Poisoned(p)) => {
@@ -117,13 +125,29 @@ pub mod sync {
                 };
             }
             sched_point("rwlock.write");
+            let mut waiting = false;
+            let done = |waiting: bool| {
+                if waiting {
+                    self.1.fetch_sub(1, Ordering::SeqCst);
+                }
+            };
             loop {
                 match self.0.try_write() {
-                    Ok(g) => return Ok(RwLockWriteGuard(Some(g))),
+                    Ok(g) => {
+                        done(waiting);
+                        return Ok(RwLockWriteGuard(Some(g)));
+                    }
                     Err(TryLockError::Poisoned(p)) => {
+                        done(waiting);
                         return Err(PoisonError::new(RwLockWriteGuard(Some(p.into_inner()))));
                     }
-                    Err(TryLockError::WouldBlock) => sched_point("rwlock.blocked"),
+                    Err(TryLockError::WouldBlock) => {
+                        if !waiting {
+                            waiting = true;
+                            self.1.fetch_add(1, Ordering::SeqCst);
+                        }
+                        sched_point("rwlock.blocked");
+                    }
                 }
             }
         }
